@@ -78,17 +78,36 @@ PROPS = {
         "level_note": _COMMON_NOTE + "The theorems are about senderNodeDelta (the abstract emission); C07_content links computeDelta's byte-budgeted output to it.",
         "assumptions": ["the byte budget is exercised through exact-fit budgets for every truncation point; theorems quantify over every admission behaviour"],
     },
+    "C15": {
+        "suites": ["listener", "node", "cluster"],
+        "level_text": "C15_trigger_exact (for every subscription map and every UTF-8 key, empty key and empty prefix included, the range scan calls exactly the listeners whose prefix is a prefix of the key, once, with the stripped key; built on the range lemma prefix_in_range and utf8Len_le_length), C15_event_iff (an event iff the write was accepted and is not a deletion), C15_unsubscribed_not_called, C15_unrepaired_panics (F-2). Tied to listener.rs/state.rs by exhaustive keys over an alphabet with 1-, 2- and 4-byte characters, random subscription sets with dropped and forever handles, local and replicated writes; an independent spec-level monitor compares the real callbacks with the matching active subscriptions.",
+        "level_note": _COMMON_NOTE + "Listener callbacks are observed through real subscriptions; HashMap iteration order inside one prefix is canonicalised (sorted).",
+        "assumptions": [],
+    },
     "C16": {
         "suites": ["cluster"],
         "level_text": "C16_bad_cluster (a foreign SYN yields exactly the ticked node and a BadCluster reply), C16_tick_only_self_heartbeat, C16_badcluster_reply_inert, C16_no_data_in_reply; tied by two-cluster schedules with cross-initiated handshakes and cluster ids that are empty / prefixes / case variants of each other.",
         "level_note": _COMMON_NOTE + "The two-cluster statement relies on the network assumption that a reply reaches the node the request came from and that an address belongs to one node for the run.",
         "assumptions": ["an address belongs to one node for the whole run"],
     },
+    "C17": {
+        "suites": ["select"],
+        "level_text": "C17_bounds, C17_seed_forced, C17_dead_forced, C17_no_zero_division for every outcome of the random generator (sampled subset, both f64 draws, both choose() results are universally quantified arguments); the real select_nodes_for_gossip is run on every subset structure of peer/live/dead/seed sets with constant (extreme, mid) and counter generators and its result is checked against the relational model (exactly, for constant generators).",
+        "level_note": _COMMON_NOTE + "rand's sample/choose are trusted to return a subset of the requested size / an element of the set (SelRandom.Valid); f64 probability comparisons are modelled with exact rationals (constants avoid ties).",
+        "assumptions": ["rand::seq sample/choose contracts"],
+    },
     "C18": {
         "suites": ["catchup"],
         "level_text": "C18_no_panic_monotone (every existing copy x every supplied state: succeeds; copy untouched or frontier strictly raised), C18_not_live (live/dead untouched, at most an empty window created), C18_no_recreate, C18_keys_subset; tied to lib.rs by an exhaustive small-scope sweep of copy shapes (absent, remembered-as-collected, empty, mid-reset, ahead, behind) x supplied (max, gc) x random key sets.",
         "level_note": _COMMON_NOTE,
         "assumptions": [],
+    },
+    "C19": {
+        "suites": ["server"],
+        "level_text": "Decision logic of the loop as a state machine (Model/Server.lean): C19_send_errors_harmless (any mix of failed sends = all sends ok), C19_heartbeat_progress, C19_loop_survives, C19_fatal_recv_terminates_err, C19_shutdown_terminates_ok, C19_terminated_is_final, C19_panic_reported. Tied to server.rs by running the real spawn_chitchat loop on a scripted Transport under the paused clock (scripts of up to 12 events over send ok/err/panic, SYN same/other cluster, ACK, junk, fatal recv, gossip command, shutdown, user lock) and comparing termination status, local heartbeat and number of send attempts.",
+        "level_note": _COMMON_NOTE + "PARTIAL by nature: tokio select! fairness, the real mutex, real UDP/OS errors are outside the model; events are placed at distinct instants of the paused clock so that select! never has two ready branches. The loopback-UDP garbage/oversize part of the property is not exercised.",
+        "assumptions": ["tokio runtime semantics", "events at distinct instants"],
+        "partial": "runtime behaviour (select!, mutex, UDP) not modelled; loopback UDP not exercised",
     },
     "C20": {
         "suites": ["apply", "pair"],
